@@ -158,6 +158,12 @@ def observe(rid, case):
             table = outline.examples[op["b"] - 1].table
             if op["op"] == "addrow":
                 cells = [txt(c) for c in op["cells"]]
+                form = op.get("form") or "list"
+                if form == "tuple":
+                    cells = tuple(cells)
+                elif form == "row":                         # a behave.model.Row object, e.g. taken from another table
+                    from behave.model import Row
+                    cells = Row(list(table.headings), cells)
                 if op["line"]:
                     table.add_row(cells, line=op["line"])
                 else:
@@ -242,7 +248,7 @@ def describe(case, row, text, v):
     seen = [{"name": s["name"], "tags": s["tags"], "line": s["line"], "steps": s["steps"]} for s in acc.get("scen", [])]
     return ("clause %s at position '%s' (access %d) demanded=%r; schema=%r ops=%s feature=%r observed=%s exc=%r" % (
         v[2], v[4], n, v[5] if len(v) > 5 else "", txt(case["schema"]),
-        json.dumps([{k: op[k] for k in ("op", "b", "cells", "line", "name", "dflt")} for op in case["ops"]], ensure_ascii=False),
+        json.dumps([{k: op.get(k, "") for k in ("op", "b", "cells", "line", "name", "dflt", "form")} for op in case["ops"]], ensure_ascii=False),
         text, json.dumps(seen, ensure_ascii=False), acc.get("exc", "")))
 
 
